@@ -1,6 +1,6 @@
 (* Definitions shared by the translated (Gen/Select.v) and the hand-written
    (Ast/Select.v) reading of profmod_extractor.py: the dict entries, python's
-   `a or b` on an optional string, an insertion-ordered int->str dict, and the
+   `a or b` on an optional string, an insertion-ordered int->[str] dict, and the
    reading of `for x in l:` / `for i, x in enumerate(l):` the translator emits. *)
 From LP Require Import Prelude.Py Ast.AstLite.
 
@@ -11,20 +11,29 @@ Record imp := { i_name : string; i_alias : option string; i_idx : Z }.
 Definition str_or (a : option string) (d : string) : string :=
   match a with Some s => if str_empty s then d else s | None => d end.
 
-(* modnames_found_in_tree: an insertion-ordered dict with unique keys *)
-Definition dict := list (Z * string).   (* insertion-ordered, keys unique *)
+(* modnames_found_in_tree: an insertion-ordered dict  int -> list of str  with unique keys *)
+Definition dict := list (Z * list string).
 
-Fixpoint dict_set (d : dict) (k : Z) (v : string) : dict :=
+(* d.setdefault(k, []).append(v) *)
+Fixpoint dict_add (d : dict) (k : Z) (v : string) : dict :=
   match d with
-  | [] => [(k, v)]
-  | (k', v') :: r => if Z.eqb k' k then (k, v) :: r else (k', v') :: dict_set r k v
+  | [] => [(k, [v])]
+  | (k', vs) :: r => if Z.eqb k' k then (k', vs ++ [v]) :: r else (k', vs) :: dict_add r k v
   end.
 
-Fixpoint dict_get (d : dict) (k : Z) : option string :=
+Fixpoint dict_get (d : dict) (k : Z) : option (list string) :=
   match d with
   | [] => None
-  | (k', v) :: r => if Z.eqb k' k then Some v else dict_get r k
+  | (k', vs) :: r => if Z.eqb k' k then Some vs else dict_get r k
   end.
+
+(* d.get(k, []) *)
+Definition dict_names (d : dict) (k : Z) : list string :=
+  match dict_get d k with Some vs => vs | None => [] end.
+
+(* all (key, name) pairs *)
+Definition dict_items (d : dict) : list (Z * string) :=
+  flat_map (fun kv => map (pair (fst kv)) (snd kv)) d.
 
 (* `for x in l: body` with the assigned variables threaded as state; an exception
    raised by the body ends the loop *)
